@@ -2,7 +2,7 @@
  * disposition that was installed before the first add is restored.
  *
  * -P backend=0..3 (epoll, epoll+changelist, poll, select)   -P sigfd=0|1 (self-pipe | signalfd)
- * -P fork=1 adds the terminal op FORK.
+ * -P fork=1 adds the terminal op FORK (and drops the arm ops to keep the number of real forks moderate).
  *
  * Events: e0, e1 on SIGUSR1 (persistent), e2 on SIGUSR2 (persistent), e3 on SIGUSR2 (one-shot).
  * Before every execution distinctive dispositions are installed (different handler,
@@ -213,7 +213,8 @@ static void body(void)
 	if (!base) return;
 	for (int e = 0; e < NE; e++) event_assign(&E[e].ev, base, EV[e].sig, EV[e].ev, sig_cb, (void *)(intptr_t)e);
 
-	const int o_raise = NE, o_arm = o_raise + 2, o_loop = o_arm + 4, o_fork = o_loop + 1, n_ops = o_fork + (FORKOP ? 1 : 0);
+	/* with FORK in the alphabet the in-callback scripts are left out: every pre-fork state costs two real forks */
+	const int o_raise = NE, o_arm = o_raise + 2, o_loop = o_arm + (FORKOP ? 0 : 4), o_fork = o_loop + 1, n_ops = o_fork + (FORKOP ? 1 : 0);
 	for (int step = 0; step < D; step++) {
 		int op = mc_choose(n_ops + 1, 0, "op");
 		if (!op) break;
